@@ -184,6 +184,8 @@ def main():
         out.append(gen_struct(r, i) + "\n")
     for i in range(N_ENUM):
         out.append(gen_enum(r, i) + "\n")
+    out.append("/// exactly 256 variants: indices 0..=255\n#[derive(TypeInfo, Encode)]\npub enum Full256 {\n" + "".join("    W%d,\n" % k for k in range(256)) + "}\n\n")
+    out.append("/// 257 declared, one skipped: 256 on the wire\n#[derive(TypeInfo, Encode)]\npub enum Full256Skip {\n" + "".join(("    #[codec(skip)]\n" if k == 100 else "") + "    W%d,\n" % k for k in range(257)) + "}\n\n")
     open(__import__("os").path.join(__import__("os").path.dirname(__import__("os").path.dirname(__import__("os").path.abspath(__file__))), "engines/fixtures/src/generated.rs"), "w").write("".join(out))
     print("wrote %d structs, %d enums" % (N_STRUCT, N_ENUM))
 
